@@ -85,8 +85,29 @@ func VP_C13_Status() {
 	}
 	vpOK(zzvp.Run("commit", "-m", "base"))
 	var wantMod, wantDel, wantUn []string
+	removedDir := ""
 	for i, f := range files {
-		switch zzvp.Choose(3) {
+		if removedDir != "" && vpHasDirPrefix(f.path, removedDir) {
+			wantDel = append(wantDel, f.path)
+			continue
+		}
+		switch zzvp.Choose(4) {
+		case 3:
+			// the whole (top-level) directory of the file is removed
+			d := ""
+			for k := 0; k < len(f.path); k++ {
+				if f.path[k] == '/' {
+					d = f.path[:k]
+					break
+				}
+			}
+			zzvp.Assume(d != "" && removedDir == "")
+			for _, o := range files[:i] {
+				zzvp.Assume(!vpHasDirPrefix(o.path, d))
+			}
+			zzvp.RemoveAll(w + "/" + d)
+			removedDir = d
+			wantDel = append(wantDel, f.path)
 		case 1:
 			// rewritten with symbolic bytes: the solver may choose identical bytes
 			nc := zzvp.Bytes("rw"+string(rune('0'+i)), len(f.content), "")
@@ -100,7 +121,7 @@ func VP_C13_Status() {
 		}
 	}
 	if zzvp.Choose(2) == 1 {
-		up := vpPath("un", depth, maxc)
+		up := vpPath("un", zzvp.Param("udepth", depth), zzvp.Param("ucomplen", 1))
 		for _, f := range files {
 			zzvp.Assume(up != f.path && !vpHasDirPrefix(up, f.path) && !vpHasDirPrefix(f.path, up))
 		}
